@@ -57,7 +57,7 @@ RULE = ("inputs: fixed corpus (CFG shapes of every past finding: constant cjump 
         "replaced value, degenerate control flow: identical arms, arms that become the same empty block, forwarding chains, self loops), "
         "front-end produced modules (c_to_ir of 8 C sources incl. gotos to following labels and empty arms), irgen modules (6 "
         "configurations) optionally pessimised (x+0, constant cjumps, values/phis demoted to stack slots) and rewritten into degenerate "
-        "control flow (degenerate_cfg, also applied to front-end and corpus modules). pipelines per input: 9 single passes, api.optimize levels, random "
+        "control flow (degenerate_cfg) and given stack slots whose alloc sits in a non-entry block, mostly inside loops, with loads that may precede every store (local_slots); both rewrites are also applied to front-end and corpus modules. pipelines per input: 9 single passes, api.optimize levels, random "
         "sequences of 3..10 passes. evaluation = one pass application whose output differs from its input; distinct non-trivial = distinct "
         "(input, pipeline, step) whose output differs from its input")
 TRUSTED = [
@@ -274,6 +274,52 @@ CORPUS = [
      "(block h (load %a i32 %p) (load %b i32 %q) (cjump %b lt %n body out)) "
      "(block body (store i32 %b %p) (binop %a1 i32 add %a %one) (store i32 %a1 %q) (jump h)) "
      "(block out (binop %r i32 add %a %b) (ret %r))))")),
+    # allocs OUTSIDE the entry block (no ppci front-end emits them; seeded change 2, see notes): in a loop body with a
+    # path that loads before any store, in one arm of a branch, after a loop, in a block reached by a back edge,
+    # two slots with interleaved lifetimes, different types, a slot whose address escapes (must stay in memory)
+    ("mem2reg-loop-local", K("m1", "(func f global i32 e (params (k i32) (c i32)) (blocks "
+     "(block e (const %z i32 0) (const %one i32 1) (jump head)) "
+     "(block head (phi %i i32 (e %k) (latch %i1)) (phi %acc i32 (e %z) (latch %acc1)) (cjump %i gt %z body out)) "
+     "(block body (alloc %x 4 4) (addrof %px %x) (cjump %i gt %c set join)) "
+     "(block set (store i32 %i %px) (jump join)) "
+     "(block join (load %v i32 %px) (binop %acc1 i32 add %acc %v) (jump latch)) "
+     "(block latch (binop %i1 i32 sub %i %one) (jump head)) "
+     "(block out (ret %acc))))")),
+    ("mem2reg-loop-local-nested", K("m2", "(func f global i32 e (params (k i32) (c i32)) (blocks "
+     "(block e (const %z i32 0) (const %one i32 1) (cjump %k gt %c pre out0)) "
+     "(block out0 (ret %z)) "
+     "(block pre (jump head)) "
+     "(block head (phi %i i32 (pre %k) (latch %i1)) (cjump %i gt %z body out)) "
+     "(block body (alloc %x 4 4) (addrof %px %x) (alloc %y 8 8) (addrof %py %y) (const %w i64 5) (cjump %i gt %c a b)) "
+     "(block a (store i32 %i %px) (load %y0 i64 %py) (binop %y1 i64 add %y0 %w) (jump join)) "
+     "(block b (store i64 %w %py) (jump join)) "
+     "(block join (load %v i32 %px) (load %u i64 %py) (cast %u32 i32 %u) (binop %s i32 add %v %u32) (cjump %s gt %c latch inner)) "
+     "(block inner (store i32 %s %px) (jump join)) "
+     "(block latch (binop %i1 i32 sub %i %one) (jump head)) "
+     "(block out (ret %i))))")),
+    ("mem2reg-arm-after-loop-backedge", K("m3", "(func f global i32 e (params (k i32) (c i32)) (blocks "
+     "(block e (const %z i32 0) (const %one i32 1) (cjump %k gt %c arm other)) "
+     "(block arm (alloc %x 4 4) (addrof %px %x) (load %v0 i32 %px) (store i32 %v0 %px) (jump loop)) "
+     "(block other (jump loop)) "
+     "(block loop (phi %i i32 (arm %k) (other %c) (loop2 %i1)) (alloc %y 2 2) (addrof %py %y) (cjump %i gt %z loop2 after)) "
+     "(block loop2 (cast %n i16 %i) (store i16 %n %py) (load %m i16 %py) (cast %m32 i32 %m) (binop %i1 i32 sub %m32 %one) (jump loop)) "
+     "(block after (alloc %q 1 1) (addrof %pq %q) (load %b u8 %pq) (cast %b32 i32 %b) (load %m2 i16 %py) (cast %m3 i32 %m2) "
+     "(binop %r i32 add %b32 %m3) (ret %r))))")),
+    ("mem2reg-escaping-local", K("m4", "(func sink local void e (params (p ptr)) (blocks (block e (exit)))) "
+     "(func f global i32 e (params (k i32)) (blocks "
+     "(block e (const %z i32 0) (const %one i32 1) (jump head)) "
+     "(block head (phi %i i32 (e %k) (body %i1)) (cjump %i gt %z body out)) "
+     "(block body (alloc %x 4 4) (addrof %px %x) (alloc %h 8 8) (addrof %ph %h) (store ptr %px %ph) (load %v i32 %px) "
+     "(alloc %w 4 4) (addrof %pw %w) (pcall @sink %pw) (load %v2 i32 %pw) (binop %s i32 add %v %v2) "
+     "(binop %i1 i32 sub %i %one) (jump head)) "
+     "(block out (ret %i))))")),
+    # the entry block is a loop header with a single (back edge) predecessor that ends in a jump
+    ("clean-entry-loop-header", K("e1", "(func f global i32 e (params (x i32) (y i32)) (blocks "
+     "(block e (cjump %x lt %y L X)) (block L (const %one i32 1) (binop %z i32 add %x %one) (jump e)) "
+     "(block X (ret %x))))")),
+    ("clean-entry-loop-header-phi", K("e2", "(func f global i32 e (params (x i32) (y i32)) (blocks "
+     "(block e (const %one i32 1) (binop %z i32 add %x %one) (cjump %z lt %y L X)) (block L (jump L2)) (block L2 (jump e)) "
+     "(block X (ret %z))))")),
     # --- CleanPass ---
     ("clean-critical-edge", K("k15", "(func f global i32 A (params (x i32)) (blocks "
      "(block A (const %z i32 0) (const %c1 i32 11) (const %c2 i32 22) (cjump %x eq %z E T)) "
@@ -417,6 +463,9 @@ def gen_texts(ctx, n):
             cnt = {}
         for kk, v in cnt.items():
             ctx.count(f"pessimise_{kk}", v)
+        ls = local_slots(ctx.rng, tree, 2) if k % 3 != 1 else {}
+        for kk, v in ls.items():
+            ctx.count(f"localslot_{kk}", v)
         dg = degenerate_cfg(ctx.rng, tree, 3) if k % 2 == 0 or mode == 2 else {}
         for kk, v in dg.items():
             ctx.count(f"degenerate_{kk}", v)
@@ -425,15 +474,19 @@ def gen_texts(ctx, n):
 
 
 def degenerate_texts(ctx, texts, per):
-    """degenerate-control-flow variants of given modules (front-end produced / corpus)"""
+    """variants of given modules (front-end produced / corpus) with stack slots outside the entry block and
+    degenerate control flow"""
     out = []
     for tag, text in texts:
         for k in range(per):
             tree = T.parse(text)
+            ls = local_slots(ctx.rng, tree, 2)
+            for kk, v in ls.items():
+                ctx.count(f"localslot_{kk}", v)
             dg = degenerate_cfg(ctx.rng, tree, 3)
-            if dg:
-                for kk, v in dg.items():
-                    ctx.count(f"degenerate_{kk}", v)
+            for kk, v in dg.items():
+                ctx.count(f"degenerate_{kk}", v)
+            if dg or ls:
                 out.append((f"{tag}+dg{k}", T.show(tree)))
     return out
 
@@ -513,6 +566,93 @@ def degenerate_cfg(rng, tree, count):
                 lo = 2 if fn[6][1][1] == fn[4] else 1       # never before the entry block
                 fn[6].insert(rng.randint(lo, len(fn[6])), nb)
             done[kind] += 1
+    return done
+
+
+# ---- stack slots outside the entry block ------------------------------------------------------------------------
+
+_SLOT_TYPES = [("i32", 4), ("i8", 1), ("u16", 2), ("i64", 8), ("u32", 4)]
+
+
+def _dominators(fn):
+    """block name -> set of names of its dominators (iterative data flow over the text tree)"""
+    blocks = T.blocks_of(fn)
+    names = [b[1] for b in blocks]
+    succ = {b[1]: [t for t in (T.targets(b[-1]) if len(b) > 2 else []) if t in names] for b in blocks}
+    preds = {n: [] for n in names}
+    for n in names:
+        for t in succ[n]:
+            preds[t].append(n)
+    entry = fn[4]
+    dom = {n: set(names) for n in names}
+    dom[entry] = {entry}
+    changed = True
+    while changed:
+        changed = False
+        for n in names:
+            if n == entry:
+                continue
+            ps = [dom[q] for q in preds[n]]
+            new = (set.intersection(*ps) if ps else set()) | {n}
+            if new != dom[n]:
+                dom[n] = new
+                changed = True
+    return dom, succ
+
+
+def _in_loop(succ, n):
+    seen, todo = set(), list(succ[n])
+    while todo:
+        x = todo.pop()
+        if x == n:
+            return True
+        if x not in seen:
+            seen.add(x)
+            todo += succ[x]
+    return False
+
+
+def local_slots(rng, tree, count):
+    """add up to `count` stack slots per function whose `alloc` sits in a NON-entry block B (preferably inside a loop):
+    stores (of fresh constants) and loads (each used by a dead binop) are put into randomly chosen blocks dominated by
+    B, so that some loads are reached without a store; sometimes the address escapes (cast to i64), sometimes the slot
+    is larger than its type.  Well-formedness is preserved (B dominates every use of the address)."""
+    done = collections.Counter()
+    for fn in T.funcs_of(tree):
+        nm = T.Namer(fn)
+        for _ in range(rng.randint(0, count)):
+            blocks = T.blocks_of(fn)
+            dom, succ = _dominators(fn)
+            cands = [b for b in blocks if b[1] != fn[4] and len(b) > 2]
+            if not cands:
+                break
+            loops = [b for b in cands if _in_loop(succ, b[1])]
+            B = rng.choice(loops) if loops and rng.random() < 0.75 else rng.choice(cands)
+            t, size = rng.choice(_SLOT_TYPES)
+            a, p = nm.val("ls"), nm.val("lp")
+            pos = 2
+            while pos < len(B) - 1 and B[pos][0] == "phi":
+                pos += 1
+            pos = rng.randint(pos, len(B) - 1)
+            asize = size * rng.choice([1, 1, 2])
+            B[pos:pos] = [["alloc", "%" + a, str(asize), str(size)], ["addrof", "%" + p, "%" + a]]
+            first_free = {B[1]: pos + 2}
+            below = [b for b in blocks if B[1] in dom[b[1]]]
+            nstores = 0
+            for b in rng.sample(below, min(len(below), rng.randint(1, 4))):
+                at = rng.randint(first_free.get(b[1], 2 + sum(1 for i in b[2:] if i[0] == "phi")), len(b) - 1)
+                if rng.random() < 0.45:
+                    cst = nm.val("lc")
+                    b[at:at] = [["const", "%" + cst, t, str(rng.choice([0, 1, 7, 100]))], ["store", t, "%" + cst, "%" + p]]
+                    nstores += 1
+                else:
+                    ld, u = nm.val("ll"), nm.val("lu")
+                    b[at:at] = [["load", "%" + ld, t, "%" + p], ["binop", "%" + u, t, "add", "%" + ld, "%" + ld]]
+            if rng.random() < 0.15:
+                esc = nm.val("le")
+                B.insert(pos + 2, ["cast", "%" + esc, "i64", "%" + p])
+                done["escaping"] += 1
+            done["in_loop" if B in loops else "not_in_loop"] += 1
     return done
 
 
